@@ -46,6 +46,9 @@ type c18Headers struct {
 	// heads: what "head" resolves to on successive requests (the chain moves on while vouch starts)
 	heads    []phase0.Root
 	headReqs int
+	// delay: a header request takes this long; failAfterDelay: ... and then fails
+	delay          int64
+	failAfterDelay bool
 }
 
 func (h *c18Headers) resolve(id string) (phase0.Root, bool) {
@@ -67,6 +70,12 @@ func (h *c18Headers) resolve(id string) (phase0.Root, bool) {
 
 func (h *c18Headers) BeaconBlockHeader(_ context.Context, opts *api.BeaconBlockHeaderOpts) (*api.Response[*apiv1.BeaconBlockHeader], error) {
 	h.calls++
+	if h.delay > 0 {
+		mc.Sleep(h.delay)
+		if h.failAfterDelay {
+			return nil, errors.New("scripted failure")
+		}
+	}
 	if h.fail {
 		return nil, errors.New("scripted failure")
 	}
@@ -255,6 +264,7 @@ func c18Units(tier string) []hx.Unit {
 		units = append(units, u)
 	}
 	units = append(units, c18CtrlUnit())
+	units = append(units, c18OverlapUnit(tier))
 	return units
 }
 
@@ -362,13 +372,77 @@ func c18CtrlUnit() hx.Unit {
 	return u
 }
 
+// Two lookups of one root that is not cached overlap (two strategies scoring the same head): the header request
+// takes a second and then succeeds or fails.  Each caller gets the block's slot or an error - never a slot the
+// block does not have.  (Unsynchronised accesses are C17's matter; here the answers are judged.)
+func c18OverlapUnit(tier string) hx.Unit {
+	type res struct {
+		slot phase0.Slot
+		err  error
+		done bool
+	}
+	var rs [3]res
+	var fails bool
+	u := hx.Unit{Name: "C18/overlapping-lookups-of-one-root", Cfg: mc.Config{Deviation: true, Horizon: int64(60 * time.Second)}, Bound: 1}
+	if tier == "thorough" {
+		u.Bound = 2
+	}
+	u.Body = func() {
+		rs = [3]res{}
+		ctx, cancel := mcontext.WithCancel(context.Background())
+		defer cancel()
+		fails = mc.Choose(2) == 1
+		hp := &c18Headers{slots: map[phase0.Root]phase0.Slot{root(1): 33, root(2): 990}, parents: map[phase0.Root]phase0.Root{root(2): root(1)}, heads: []phase0.Root{root(1)}}
+		svc, err := standardcache.New(ctx, standardcache.WithLogLevel(zerolog.Disabled), standardcache.WithMonitor(&nullmetrics.Service{}),
+			standardcache.WithChainTime(newChainTime(-int64(66*15*time.Minute), time.Minute, 15)), standardcache.WithScheduler(&nopScheduler{}),
+			standardcache.WithEventsProvider(&eventsProvider{}), standardcache.WithSignedBeaconBlockProvider(c18Blocks{hp}), standardcache.WithBeaconBlockHeadersProvider(hp))
+		must(err)
+		hp.delay, hp.failAfterDelay = int64(time.Second), fails
+		for i := 0; i < 2; i++ {
+			i := i
+			mc.Go(func() {
+				rs[i].slot, rs[i].err = svc.BlockRootToSlot(ctx, root(2))
+				rs[i].done = true
+			})
+		}
+		mc.Sleep(int64(5 * time.Second))
+		// afterwards the node is well again: a third lookup
+		hp.delay, hp.failAfterDelay = 0, false
+		rs[2].slot, rs[2].err = svc.BlockRootToSlot(ctx, root(2))
+		rs[2].done = true
+	}
+	u.Check = func(r *mc.Result) mc.Verdict {
+		v := mc.Verdict{Outcome: fmt.Sprintf("overlap fails=%v", fails), Nontrivial: true,
+			Sample: fmt.Sprintf("two overlapping lookups of an uncached root, header request fails=%v: (%d,%v) (%d,%v), later (%d,%v)", fails, rs[0].slot, rs[0].err, rs[1].slot, rs[1].err, rs[2].slot, rs[2].err)}
+		if r.Panic != "" {
+			v.Violation, v.Key = v.Sample+": panic: "+firstLine(r.Panic), "C18/panic"
+			return v
+		}
+		for i, x := range rs {
+			switch {
+			case !x.done:
+				v.Violation, v.Key = v.Sample+fmt.Sprintf(": lookup %d never returned", i+1), "C18/overlap/never-returned"
+			case x.err == nil && x.slot != 990:
+				v.Violation, v.Key = v.Sample+fmt.Sprintf(": lookup %d reports slot %d without an error; the block's slot is 990", i+1, x.slot), "C18/overlap/failed-fetch-reported-as-slot"
+			case x.err != nil && !(fails && i < 2):
+				v.Violation, v.Key = v.Sample+fmt.Sprintf(": lookup %d failed (%v) although the beacon node answered", i+1, x.err), "C18/overlap/miss-returned-error"
+			}
+			if v.Violation != "" {
+				return v
+			}
+		}
+		return v
+	}
+	return u
+}
+
 func init() {
 	hx.Register(&hx.Prop{
 		ID:    "C18",
 		Title: "A block root always maps to that block's slot",
-		Rule: "all operation sequences up to the depth bound (quick 4, thorough 6) over {block event, head event, lookup with working provider, lookup with failing provider} x 3 roots, each the parent of the next with missed slots in between (slots exactly on the retention boundary of the first and of the second clean run, and one slot ahead of vouch's clock at the start; and the same started 400 ms before an epoch begins, the old blocks in the last slot of the oldest epoch a clean run must keep) and {clean run}, on the real cache service (started while the chain head moves from the second to the third block between requests) with the real scheduler and chain time on a virtual clock; compared with a reference map after every step; plus the real controller feeding the real cache (block events handed on, the cache as the controller's setter, a proposal delay so that the controller looks at the head before proposing; dependent blocks in or before the last slot of their epoch, the previous slot's block arriving or missing, the newest block heard on time or a second before vouch's clock reaches its slot): afterwards the cache gives every block of the chain its own slot; " +
+		Rule: "all operation sequences up to the depth bound (quick 4, thorough 6) over {block event, head event, lookup with working provider, lookup with failing provider} x 3 roots, each the parent of the next with missed slots in between (slots exactly on the retention boundary of the first and of the second clean run, and one slot ahead of vouch's clock at the start; and the same started 400 ms before an epoch begins, the old blocks in the last slot of the oldest epoch a clean run must keep) and {clean run}, on the real cache service (started while the chain head moves from the second to the third block between requests) with the real scheduler and chain time on a virtual clock; compared with a reference map after every step; plus the real controller feeding the real cache (block events handed on, the cache as the controller's setter, a proposal delay so that the controller looks at the head before proposing; dependent blocks in or before the last slot of their epoch, the previous slot's block arriving or missing, the newest block heard on time or a second before vouch's clock reaches its slot): afterwards the cache gives every block of the chain its own slot; plus two overlapping lookups of one uncached root whose header request takes a second and succeeds or fails (all schedules with one deviation, thorough two): each caller gets the block's slot or an error; " +
 			"non-trivial = the sequence contains a lookup miss or a clean run; distinct = distinct (miss, clean, length) classes",
-		Assumptions:   []string{"single caller (overlap of lookups and events is C17)", "block events carry the block's true slot"},
+		Assumptions:   []string{"single caller in the sequence units (unsynchronised accesses under overlap are C17); one unit with two overlapping lookups of one uncached root judges the answers", "block events carry the block's true slot"},
 		Units:         c18Units,
 		MinNontrivial: 10,
 	})
